@@ -18,12 +18,12 @@ def run_compare(ctx):
 def common(ctx, prop, kinds):
     ctx.assumptions.append("statement language with byte offsets (nested function declarations, arrow / getter expression statements, function-likes in for-in/of heads); classes and the Visit glue of the three rules are covered by the correspondence only; "
                            "function declarations are hoisted to the top of their statement list in the specification; "
-                           "swc's cast_to_bool / ExprCtx (constant conditions) modelled for the condition spellings the generator uses")
+                           "swc's cast_to_bool / ExprCtx (constant conditions) is an input of the model: the test kinds are known-true (pure, or after an expression that may throw), never-true, always-true-but-unknown-to-swc and opaque, for the ~40 spellings the generator uses; NaN-valued arithmetic, for which swc answers Known(true), is a known dependency finding")
     ctx.proof_stage(prop, ["CF/SoundnessCurrent.vo"])
     res = run_compare(ctx)
     mism = res["mismatches"]
     nontriv = res["programs"] - res["sizes"].get("1-2", 0)
-    ctx.correspondence("Coq model of control_flow/mod.rs (fixes A,B,D,E = current code) vs ControlFlow::analyze: info map entry by entry + the three rules' diagnostics; ghost analyzer vs map analyzer",
+    ctx.correspondence("Coq model of control_flow/mod.rs (fixes A,B,D,E,F = current code) vs ControlFlow::analyze: info map entry by entry + the three rules' diagnostics; ghost analyzer vs map analyzer",
                        res["programs"], nontriv, mism[:10],
                        "random well-formed programs (seeded; labels, break/continue, try/finally, do-while biased) wrapped as function/getter/switch + ALL programs up to a small size (exhaustive, seed independent); "
                        "non-trivial := more than 2 statements; %d info entries and %d diagnostics compared" % (res["info_entries"], res["diags"]),
@@ -46,6 +46,16 @@ def common(ctx, prop, kinds):
     for u in res.get("unexplained", [])[:3]:
         ctx.violation("%s.model-oracle:unexplained" % prop, "oracle violation not explained by a known class: %s" % u["src"][:160], u)
     ctx.extra["impl_level_violations"] = {k: len(v) for k, v in iv.items()}
+    # dependency finding: swc's cast_to_bool on NaN-valued arithmetic (fixed corpus, implementation against the semantics)
+    if prop == "C10":
+        dep = cf.dependency_findings()
+        ctx.extra["dependency_corpus"] = {"programs": len(cf.DEP_CORPUS_G) + len(cf.DEP_RAW_G), "violations": len(dep)}
+        for n, item in enumerate(dep):
+            if n < 2:
+                ctx.violation("C10." + cf.DEP_CLASS_G,
+                              "c10 violated on the implementation at offset %s (the loop test is NaN-valued, swc's cast_to_bool says Known(true)): %s" % (item["offset"], item["src"]),
+                              {"src": item["src"], "offset": item["offset"], "kind": "c10",
+                               "replay": "echo '{\"src\": <src>, \"media\": \"js\", \"rules\": [\"no-unreachable\"]}' | harness/target/release/vh lint"})
 
 
 @register("C10")
